@@ -487,7 +487,15 @@ def run(prop, tier, seed):
     quick = tier == "quick"
 
     # ---- (M) model checking the design: invariants owned by this property
-    mc_cfg = "InterleavedProps_quick.cfg" if quick else "InterleavedProps_thorough.cfg"
+    # this property's own clauses only (the full cfg files InterleavedProps_{quick,thorough}.cfg list all of them)
+    base_cfg = open(os.path.join(tlc.SPECS, "InterleavedProps_quick.cfg" if quick else "InterleavedProps_thorough.cfg")).read()
+    lines = [ln for ln in base_cfg.splitlines() if not ln.startswith(("INVARIANT", "PROPERTY"))]
+    lines += [f"INVARIANT {nm}" for nm in OWN[prop] if nm != "Terminates"]
+    if "Terminates" in OWN[prop]:
+        lines.append("PROPERTY Terminates")
+    mc_cfg = f"InterleavedProps_{prop}_{tier}.cfg"
+    with open(os.path.join(tlc.SPECS, mc_cfg), "w") as f:
+        f.write("\n".join(lines) + "\n")
     res = tlc.run_tlc("InterleavedProps", mc_cfg, name=f"{prop}mc", workers=16, timeout=7200, coverage=True)
     v.add_tlc(res, "InterleavedProps exhaustive")
     for nm in res.violated:
